@@ -159,6 +159,9 @@ def _same_body(ex, r, op, n, nouter, body):
         return e
     try:
         va, vb = r.body(o, j), body(o, j)
+        # structural filter (see opaque.arrays_equal): bodies over different array element functions are different reductions
+        if opaque._array_symbols(va) != opaque._array_symbols(vb):
+            return False
         if not isinstance(va, (bool,)) and not (isz(va) and z3.is_bool(va)):
             comps = lambda v: [toreal(v.re), toreal(v.im)] if isinstance(v, Cx) else [toreal(v)]
             ca, cb = comps(va), comps(vb)
@@ -331,3 +334,17 @@ def scale_lemma(ex, arr1, arr2, c):
         return None
     s1, s2 = reduce_(ex, 'sum', arr1, 0), reduce_(ex, 'sum', arr2, 0)
     return toreal(s1) == toreal(c) * toreal(s2)
+
+
+def le_lemma(ex, arr1, arr2, extra=()):
+    """monotonicity of sums: if arr1[j] <= arr2[j] element-wise (checked, possibly under `extra` hypotheses about index j given as
+    functions j -> Bool) then sum(arr1) <= sum(arr2).  Returns a z3 Bool or None."""
+    from . import opaque
+    if not ex.entails(tobool(s_eq(arr1.shape[0], arr2.shape[0]))):
+        return None
+    j = ex.newvar('jm', 'int')
+    prem = toreal(arr1.elem((j,))) <= toreal(arr2.elem((j,)))
+    if not opaque.entails_ax(ex, z3.Implies(z3.And(j >= 0, j < tonum(arr1.shape[0])), prem), extra=[f(j) for f in extra]):
+        return None
+    s1, s2 = reduce_(ex, 'sum', arr1, 0), reduce_(ex, 'sum', arr2, 0)
+    return toreal(s1) <= toreal(s2)
